@@ -3,6 +3,7 @@ package storagePruningManager
 import (
 	"bytes"
 	"encoding/hex"
+	"sync"
 
 	logger "github.com/ElrondNetwork/elrond-go-logger"
 	"github.com/ElrondNetwork/elrond-go/core"
@@ -24,6 +25,11 @@ var log = logger.GetOrCreate("state/storagePruningManager")
 type storagePruningManager struct {
 	dbEvictionWaitingList state.DBRemoveCacher
 	pruningBuffer         state.AtomicBuffer
+
+	// keys that have been registered again in the eviction waiting list while the pruning buffer was not empty;
+	// a buffered cancel request must not be applied to an entry that is newer than the request
+	reRegisteredKeys    map[string]struct{}
+	mutReRegisteredKeys sync.Mutex
 }
 
 // NewStoragePruningManager creates a new instance of storagePruningManager
@@ -38,6 +44,7 @@ func NewStoragePruningManager(
 	return &storagePruningManager{
 		dbEvictionWaitingList: evictionWaitingList,
 		pruningBuffer:         pruningBuffer.NewPruningBuffer(pruningBufferLen),
+		reRegisteredKeys:      make(map[string]struct{}),
 	}, nil
 }
 
@@ -62,6 +69,7 @@ func (spm *storagePruningManager) MarkForEviction(
 		if err != nil {
 			return err
 		}
+		spm.markAsReRegistered(newRoot)
 
 		logMapWithTrace("MarkForEviction newHashes", "hash", newHashes)
 	}
@@ -72,10 +80,32 @@ func (spm *storagePruningManager) MarkForEviction(
 		if err != nil {
 			return err
 		}
+		spm.markAsReRegistered(oldRoot)
 
 		logMapWithTrace("MarkForEviction oldHashes", "hash", oldHashes)
 	}
 	return nil
+}
+
+// markAsReRegistered remembers that the given eviction waiting list key was written while there are buffered requests.
+// A cancel request that was buffered before this moment (for example by a rollback done while pruning was blocked,
+// followed by a new block built on the same parent) refers to the previous entry, not to the one that was just written.
+func (spm *storagePruningManager) markAsReRegistered(key []byte) {
+	if spm.pruningBuffer.Len() == 0 {
+		return
+	}
+
+	spm.mutReRegisteredKeys.Lock()
+	spm.reRegisteredKeys[string(key)] = struct{}{}
+	spm.mutReRegisteredKeys.Unlock()
+}
+
+func (spm *storagePruningManager) isCancelOutdated(key []byte) bool {
+	spm.mutReRegisteredKeys.Lock()
+	defer spm.mutReRegisteredKeys.Unlock()
+
+	_, ok := spm.reRegisteredKeys[string(key)]
+	return ok
 }
 
 func removeDuplicatedKeys(oldHashes map[string]struct{}, newHashes map[string]struct{}) {
@@ -127,6 +157,11 @@ func (spm *storagePruningManager) CancelPrune(rootHash []byte, identifier data.T
 	rootHash = append(rootHash, byte(identifier))
 
 	if tsm.IsPruningBlocked() || spm.pruningBuffer.Len() != 0 {
+		// this request is newer than any previous registration of the same key
+		spm.mutReRegisteredKeys.Lock()
+		delete(spm.reRegisteredKeys, string(rootHash))
+		spm.mutReRegisteredKeys.Unlock()
+
 		rootHash = append(rootHash, byte(cancelPrune))
 		spm.pruningBuffer.Add(rootHash)
 
@@ -155,11 +190,19 @@ func (spm *storagePruningManager) resolveBufferedHashes(oldHashes [][]byte, tsm 
 		case prune:
 			spm.prune(rootHash, tsm)
 		case cancelPrune:
+			if spm.isCancelOutdated(rootHash) {
+				log.Trace("buffered cancel prune is older than the eviction waiting list entry", "root", rootHash)
+				continue
+			}
 			spm.cancelPrune(rootHash)
 		default:
 			log.Error("invalid pruning operation", "operation id", pruneOperation)
 		}
 	}
+
+	spm.mutReRegisteredKeys.Lock()
+	spm.reRegisteredKeys = make(map[string]struct{})
+	spm.mutReRegisteredKeys.Unlock()
 }
 
 func (spm *storagePruningManager) prune(rootHash []byte, tsm data.StorageManager) {
